@@ -49,8 +49,8 @@ class Projection:
             if np.abs(diff) < tolerance1:
                 return [initparam]
             niter += 1
-            if niter > 100:  # Newton is cycling: keep the current candidate
-                return [initparam]
+            if niter > 100:  # Newton is cycling: no candidate from this start
+                return tuple()
 
     @staticmethod
     def point_on_bezier(point: Tuple[float], bezier: Curve) -> Tuple[float]:
@@ -62,7 +62,7 @@ class Projection:
         curves.append(Derivate(curves[0]))
         curves.append(Derivate(curves[1]))
         tparams = np.linspace(umin, umax, 5)
-        tvalues = set()
+        tvalues = set((umin, umax))
         for tparam in tparams:
             newt = Projection.__newton_point_on_curve(point, curves, tparam)
             tvalues |= set(newt)
